@@ -358,8 +358,13 @@ def s2_s3_update(ctx):
             # the loop runs over the drained list itself: it was never ordered - or over something this rule does not read (grouping objects, chained buckets)
             app0 = [t for t in T.subterms(it) if t[0] == 'call' and t[1] == ('ext', 'APPENDED')]
             plain = app0 and it[0] in ('accum', 'call') and not any(s_[0] == 'call' and s_[1][0] == 'ext' and ('chain' in s_[1][1] or 'groupby' in s_[1][1]) for s_ in T.subterms(it))
-            if plain and not any(e.kind == 'call' and e.callee == ['meth:sort'] for e in p.flat_events()):
+            # (a path that skipped the sort after a test ABOUT the batch - already in order? fewer than two? - is an argument about values, not an unsorted batch)
+            tested = [c_ for c_, _v, _s in p.conds if any(T.teq(s_, it) for s_ in T.subterms(c_))]
+            if plain and not tested and not any(e.kind == 'call' and e.callee == ['meth:sort'] for e in p.flat_events()):
                 ctx.violation('C04.S5', 'the batch is sorted before execution', lp.site, 'loop iterates %s' % fmt(it)[:160], key='C04.S5|sorted')
+            elif plain and tested:
+                ctx.undecided('C04.S5', 'the batch is sorted before execution', lp.site, 'the unsorted batch is executed only after the test %s on it: whether that test implies sells-first order is not decided'
+                              % fmt(tested[0])[:120])
             else:
                 ctx.undecided('C04.S5', 'the batch is sorted before execution', lp.site, 'loop iterates %s' % fmt(it)[:160])
             continue
